@@ -300,6 +300,9 @@ func c02DetectWords(b []byte) (c02WordKind, bool) {
 // c02MutateBinary: word-level edits of a binary CPU profile (falls back to byte edits).
 func c02MutateBinary(r *Rng, doc []byte) []byte {
 	k, ok := c02DetectWords(doc)
+	if ok && r.Chance(20) { // the text tail (memory map) of a binary CPU profile
+		return c02MutateMapLines(r, doc)
+	}
 	if !ok || r.Chance(25) {
 		return mutateBytes(r, doc)
 	}
@@ -375,7 +378,6 @@ func c02MutateBinary(r *Rng, doc []byte) []byte {
 	return out
 }
 
-const c02MemMap = "--- Memory map: ---\n00400000-00401000 r-xp 00000000 00:00 0 /bin/prog\n7f0000000000-7f0000100000 r-xp 00002000 00:00 0 /lib/libc.so.6\n"
 
 // c02GenBinaryCPU builds a binary CPU profile document (all four word kinds, C++/java flag,
 // with or without end marker and text tail).
@@ -436,7 +438,7 @@ func c02GenBinaryCPU(r *Rng) []byte {
 			}
 		}
 	} else if r.Chance(70) {
-		out = append(out, c02MemMap...)
+		out = append(out, c02GenMemMap(r)...)
 	}
 	return out
 }
@@ -483,7 +485,7 @@ func c02GenTextLegacy(r *Rng) (string, []byte) {
 				sb.WriteString("# comment\n\n")
 			}
 		}
-		sb.WriteString("\nMAPPED_LIBRARIES:\n00400000-00401000 r-xp 00000000 00:00 0 /bin/prog\n")
+		sb.WriteString("\n" + c02GenMemMap(r))
 	case "contention", "mutex":
 		if kind == "mutex" {
 			sb.WriteString("--- mutex:\n")
@@ -501,7 +503,7 @@ func c02GenTextLegacy(r *Rng) (string, []byte) {
 			c := c02Cols(r, 2)
 			fmt.Fprintf(&sb, "%s%s%s%s @%s\n", sp(), c[0], sp(), c[1], c02Hexlist(r))
 		}
-		sb.WriteString(c02MemMap)
+		sb.WriteString(c02GenMemMap(r))
 	case "thread":
 		fmt.Fprintf(&sb, "--- threadz %s ---\n\n", c02Cols(r, 1)[0])
 		for i, n := 0, r.Intn(6); i < n; i++ {
@@ -512,11 +514,14 @@ func c02GenTextLegacy(r *Rng) (string, []byte) {
 				fmt.Fprintf(&sb, " %s\n", c02Hexlist(r))
 			}
 		}
-		sb.WriteString(c02MemMap)
+		sb.WriteString(c02GenMemMap(r))
 	case "goroutine":
 		fmt.Fprintf(&sb, "%s profile: total %s\n", []string{"goroutine", "threadcreate", "x"}[r.Intn(3)], c02Cols(r, 1)[0])
 		for i, n := 0, r.Intn(8); i < n; i++ {
 			fmt.Fprintf(&sb, "%s @%s\n#\t0x400000\tmain.f+0x10\t/a/b.go:12\n\n", c02Cols(r, 1)[0], c02Hexlist(r))
+		}
+		if r.Chance(70) {
+			sb.WriteString(c02GenMemMap(r))
 		}
 	case "javaheap":
 		sb.WriteString("--- heapz 1 ---\nformat = java\nresolution = bytes\n")
